@@ -357,6 +357,13 @@ def explore_cell(lemma, cell, interp, timeout_ms=10000, max_paths=4000, replay=T
             res.errors.append("checker crash: %s\n%s" % (e, traceback.format_exc()[-1500:]))
         finally:
             set_path(None)
+        # vacuity guard: a path whose condition is unsatisfiable proves nothing
+        if env.outcomes:
+            try:
+                if (p.check() if p.light is None else p.light.check()) == z3.unsat:
+                    res.errors.append("vacuous path: the path condition is unsatisfiable (contradictory assumption in a lemma or contract)")
+            except Exception:  # noqa
+                pass
         res.paths += 1
         res.queries += p.nqueries
         res.solver_s += p.solver_s
